@@ -36,7 +36,7 @@ package seccomp
 // in program order; label positions lie inside the program or at its end.
 //@ macro riK(p) = forall(x, 0, len(p.instructions), isRet(p.instructions[x]) || istype(p.instructions[x], bpf.LoadAbsolute) || istype(p.instructions[x], bpf.JumpIf), trig(p.instructions[x]))
 //@ macro riJ(p) = forall(k, 0, len(p.jumps), 0 <= p.jumps[k].index && p.jumps[k].index < len(p.instructions) && istype(p.instructions[p.jumps[k].index], bpf.JumpIf)) && forall(x, 0, len(p.instructions), istype(p.instructions[x], bpf.JumpIf) ==> unbox(p.instructions[x], bpf.JumpIf).SkipTrue == 0 && unbox(p.instructions[x], bpf.JumpIf).SkipFalse == 0, trig(p.instructions[x])) && forall(a, 0, len(p.jumps), forall(b, a + 1, len(p.jumps), p.jumps[a].index < p.jumps[b].index)) && jumpsComplete(p.instructions, p.jumps)
-//@ macro riL(p) = nonnil(p.labels) && forallk(l, p.labels, forall(m, 0, len(p.labels[l]), 0 <= p.labels[l][m] && p.labels[l][m] <= len(p.instructions)))
+//@ macro riL(p) = nonnil(p.labels) && forallk(l, p.labels, len(p.labels[l]) >= 0 && forall(m, 0, len(p.labels[l]), 0 <= p.labels[l][m] && p.labels[l][m] <= len(p.instructions)))
 //@ macro ri(p) = riK(p) && riJ(p) && riL(p)
 
 // jump k of the label-level program p0 is resolved in the instruction list R: same test, and each branch continues
@@ -455,6 +455,8 @@ package seccomp
 //@   use fiaAt(s, x, j + 1, m) when j < m
 //@   ensures firstIdxAbove(s, x, j) == m
 
+//@ macro runL(p0, x, A) = runL3(p0.instructions, p0.jumps, p0.labels, x, A)
+//@ macro runP(p0, x, A) = runP3(p0.instructions, p0.jumps, p0.labels, x, A)
 //@ macro jk(p0, x) = jidx(p0.jumps, x, 0)
 //@ macro dT(p0, x) = p0.labels[p0.jumps[jk(p0, x)].trueLabel][ghost.mt[jk(p0, x)]]
 //@ macro dF(p0, x) = p0.labels[p0.jumps[jk(p0, x)].falseLabel][ghost.mf[jk(p0, x)]]
@@ -465,7 +467,7 @@ package seccomp
 //@ lemma simPlain(p0 Program, R []bpf.Instruction, x int, A uint32)
 //@   requires ri(p0) && sim(p0, R) && 0 <= x && x <= len(p0.instructions) && !atJump(p0, x)
 //@   requires x < len(p0.instructions) && istype(p0.instructions[x], bpf.LoadAbsolute) ==> run(R, ghost.apos[x + 1], word(ev, unbox(p0.instructions[x], bpf.LoadAbsolute).Off)) == runL(p0, x + 1, word(ev, unbox(p0.instructions[x], bpf.LoadAbsolute).Off))
-//@   opaque run runL posMono jumpsComplete
+//@   opaque run runL3 posMono jumpsComplete
 //@   use runLStep(p0, x, A)
 //@   use runStep(R, ghost.apos[x], A)
 //@   use monoPivot(0)
@@ -482,7 +484,7 @@ package seccomp
 //@   requires ri(p0) && sim(p0, R) && 0 <= x && atJump(p0, x)
 //@   requires @ihT run(R, ghost.apos[dT(p0, x)], A) == runL(p0, dT(p0, x), A)
 //@   requires @ihF run(R, ghost.apos[dF(p0, x)], A) == runL(p0, dF(p0, x), A)
-//@   opaque run runL posMono
+//@   opaque run runL3 posMono
 //@   use runLStep(p0, x, A)
 //@   use runStep(R, ghost.apos[x], A)
 //@   use jidxAll(p0.jumps, x, 0)
@@ -498,7 +500,7 @@ package seccomp
 //@ lemma simInd(p0 Program, R []bpf.Instruction, x int, A uint32)
 //@   requires ri(p0) && sim(p0, R) && 0 <= x && x <= len(p0.instructions)
 //@   decreases len(p0.instructions) - x
-//@   opaque run runL posMono
+//@   opaque run runL3 posMono
 //@   use jidxAll(p0.jumps, x, 0) when atJump(p0, x)
 //@   use simInd(p0, R, x + 1, word(ev, unbox(p0.instructions[x], bpf.LoadAbsolute).Off)) when x < len(p0.instructions) && istype(p0.instructions[x], bpf.LoadAbsolute)
 //@   use simInd(p0, R, dT(p0, x), A) when atJump(p0, x)
@@ -516,6 +518,9 @@ package seccomp
 //@   ensures 0 <= x && x < len(p0.instructions) && isRet(p0.instructions[x]) ==> runP(p0, x, A) == PRet(unbox(p0.instructions[x], bpf.RetConstant).Val)
 //@   ensures 0 <= x && x < len(p0.instructions) && istype(p0.instructions[x], bpf.LoadAbsolute) ==> runP(p0, x, A) == runP(p0, x + 1, word(ev, unbox(p0.instructions[x], bpf.LoadAbsolute).Off))
 //@   ensures 0 <= x && x < len(p0.instructions) && istype(p0.instructions[x], bpf.JumpIf) && jidx(p0.jumps, x, 0) < len(p0.jumps) ==> runP(p0, x, A) == ite(destOf(p0.labels, jlab(p0, x, A), x) <= x, PPend(jlab(p0, x, A), A), runP(p0, destOf(p0.labels, jlab(p0, x, A), x), A))
+//@ lemma runPStuck(p0 Program, x int, A uint32)
+//@   ensures 0 <= x && x < len(p0.instructions) && istype(p0.instructions[x], bpf.JumpIf) && jidx(p0.jumps, x, 0) >= len(p0.jumps) ==> runP(p0, x, A) == PStuck
+//@   ensures 0 <= x && x < len(p0.instructions) && !isRet(p0.instructions[x]) && !istype(p0.instructions[x], bpf.LoadAbsolute) && !istype(p0.instructions[x], bpf.JumpIf) ==> runP(p0, x, A) == PStuck
 //@ macro jlab(p0, x, A) = ite(jtest(unbox(p0.instructions[x], bpf.JumpIf).Cond, A, unbox(p0.instructions[x], bpf.JumpIf).Val), p0.jumps[jidx(p0.jumps, x, 0)].trueLabel, p0.jumps[jidx(p0.jumps, x, 0)].falseLabel)
 // no position above x: the search returns len
 //@ lemma fiaNone(s []Index, x int, j int)
@@ -528,16 +533,76 @@ package seccomp
 //@ macro atLd(p0, x) = x < len(p0.instructions) && istype(p0.instructions[x], bpf.LoadAbsolute)
 //@ macro ldA(p0, x) = word(ev, unbox(p0.instructions[x], bpf.LoadAbsolute).Off)
 //@ macro dst(p0, x, A) = destOf(p0.labels, jlab(p0, x, A), x)
+// the search result lies between the start index and the length
+//@ lemma fiaRange(s []Index, x int, j int)
+//@   requires 0 <= j && j <= len(s)
+//@   decreases len(s) - j
+//@   use fiaRange(s, x, j + 1) when j < len(s)
+//@   ensures j <= firstIdxAbove(s, x, j) && firstIdxAbove(s, x, j) <= len(s)
 // a finished run of the prefix semantics is a run of S-lab
 //@ lemma runLP(p0 Program, x int, A uint32)
 //@   requires riL(p0) && 0 <= x && x <= len(p0.instructions)
 //@   decreases len(p0.instructions) - x
-//@   opaque runL runP
+//@   opaque runL3 runP3
 //@   use runLStep(p0, x, A)
 //@   use runPStep(p0, x, A)
+//@   use fiaRange(p0.labels[jlab(p0, x, A)], x, 0) when atJ(p0, x)
 //@   use runLP(p0, x + 1, ldA(p0, x)) when atLd(p0, x)
 //@   use runLP(p0, dst(p0, x, A), A) when atJ(p0, x) && dst(p0, x, A) > x
 //@   ensures runL(p0, x, A) == stripP(runP(p0, x, A))
+
+// appending a return or a load changes the outcome only where the run fell off the end
+//@ macro sameJL(p, q) = q.jumps == p.jumps && q.labels == p.labels
+//@ lemma appendPlain(p Program, q Program, x int, A uint32)
+//@   requires sameBut1(p, q) && sameJL(p, q) && riL(p) && (isRet(lastI(q)) || istype(lastI(q), bpf.LoadAbsolute)) && 0 <= x && x <= len(p.instructions)
+//@   decreases len(p.instructions) - x
+//@   opaque runP3
+//@   use runPStep(p, x, A)
+//@   use runPStep(q, x, A)
+//@   use runPStuck(p, x, A)
+//@   use runPStuck(q, x, A)
+//@   use runPStep(q, x + 1, word(ev, unbox(lastI(q), bpf.LoadAbsolute).Off)) when x == len(p.instructions)
+//@   use fiaRange(p.labels[jlab(p, x, A)], x, 0) when atJ(p, x)
+//@   use appendPlain(p, q, x + 1, ldA(p, x)) when atLd(p, x)
+//@   use appendPlain(p, q, dst(p, x, A), A) when atJ(p, x) && dst(p, x, A) > x
+//@   ensures runP(q, x, A) == ite(isRet(lastI(q)), extRet(runP(p, x, A), unbox(lastI(q), bpf.RetConstant).Val), extLd(runP(p, x, A), unbox(lastI(q), bpf.LoadAbsolute).Off))
+
+// appending a conditional jump (and its record) turns a run that fell off the end into a pending jump
+//@ macro lastJ(q) = q.jumps[len(q.jumps) - 1]
+//@ macro plusJump(p, q) = len(q.jumps) == len(p.jumps) + 1 && forall(k, 0, len(p.jumps), q.jumps[k] == p.jumps[k], trig(q.jumps[k])) && lastJ(q).index == len(p.instructions)
+//@ lemma appendJif(p Program, q Program, x int, A uint32)
+//@   requires sameBut1(p, q) && q.labels == p.labels && plusJump(p, q) && istype(lastI(q), bpf.JumpIf) && ri(p) && 0 <= x && x <= len(p.instructions)
+//@   decreases len(p.instructions) - x
+//@   opaque runP3
+//@   use runPStep(p, x, A)
+//@   use runPStep(q, x, A)
+//@   use runPStuck(p, x, A)
+//@   use runPStuck(q, x, A)
+//@   use jidxAll(p.jumps, x, 0)
+//@   use jidxAll(q.jumps, x, 0)
+//@   use fiaNone(q.labels[jlab(q, x, A)], x, 0) when x == len(p.instructions)
+//@   use fiaRange(p.labels[jlab(p, x, A)], x, 0) when atJ(p, x)
+//@   use appendJif(p, q, x + 1, ldA(p, x)) when atLd(p, x)
+//@   use appendJif(p, q, dst(p, x, A), A) when atJ(p, x) && dst(p, x, A) > x
+//@   ensures runP(q, x, A) == extJif(runP(p, x, A), unbox(lastI(q), bpf.JumpIf).Cond, unbox(lastI(q), bpf.JumpIf).Val, lastJ(q).trueLabel, lastJ(q).falseLabel)
+
+// placing a label that had no position at the end of the program turns a jump pending on it into a run that
+// reaches the end; nothing else changes
+//@ macro placed(p, q, l) = q.instructions == p.instructions && q.jumps == p.jumps && !has(p.labels, l) && has(q.labels, l) && len(q.labels[l]) == 1 && q.labels[l][0] == len(p.instructions) && forallk(l2, p.labels, l2 != l ==> (has(q.labels, l2) == has(p.labels, l2) && q.labels[l2] == p.labels[l2]))
+//@ lemma placeLabel(p Program, q Program, l Label, x int, A uint32)
+//@   requires placed(p, q, l) && riL(p) && 0 <= x && x <= len(p.instructions)
+//@   decreases len(p.instructions) - x
+//@   opaque runP3
+//@   use runPStep(p, x, A)
+//@   use runPStep(q, x, A)
+//@   use runPStuck(p, x, A)
+//@   use runPStuck(q, x, A)
+//@   use runPStep(q, len(p.instructions), A)
+//@   use fiaAt(q.labels[l], x, 0, 0) when x < len(p.instructions)
+//@   use fiaRange(p.labels[jlab(p, x, A)], x, 0) when atJ(p, x)
+//@   use placeLabel(p, q, l, x + 1, ldA(p, x)) when atLd(p, x)
+//@   use placeLabel(p, q, l, dst(p, x, A), A) when atJ(p, x) && jlab(p, x, A) != l && dst(p, x, A) > x
+//@   ensures runP(q, x, A) == extMark(runP(p, x, A), l)
 
 // MT-fwd (meta-theory, DESIGN.md 3.3): the single-pass interpretation G that the builder primitives maintain equals the
 // label-level program run directly on the structure (S-lab). Trusted: a statement about label-level programs only
@@ -569,7 +634,7 @@ package seccomp
 //@   ensures @sem result1 == nil ==> run(result0, 0, A0) == outG(old(p.G))
 //@   ensures @closed result1 == nil && ok(old(p)) ==> closed(result0) && retsInSet(result0, old(p.R))
 //@   ensures @len result1 == nil ==> len(result0) >= len(old(p.instructions))
-//@   opaque posMono jumpsComplete runL
+//@   opaque posMono jumpsComplete runL3
 //@   opaque closed retsInSet except closed
 //@   ghost ghost.apos = idArr at entry
 //@   use monoId() at entry
